@@ -497,7 +497,7 @@ def run_tout(mod, tier, seed, replay=None):
         wit = mod.known_witnesses().get(f["key"]) if hasattr(mod, "known_witnesses") else None
         if not wit:
             continue
-        wenv = dict(henv, VERIF_LEAK_DEADLINE_MS=os.environ.get("VERIF_KNOWN_LEAK_DEADLINE_MS", "1500"))
+        wenv = dict(henv, VERIF_LEAK_DEADLINE_MS=os.environ.get("VERIF_KNOWN_LEAK_DEADLINE_MS", "3000"))
         dump = os.path.join(C.WORK, prop, "known-goroutines.txt")
         os.makedirs(os.path.dirname(dump), exist_ok=True)
         if os.path.exists(dump):
